@@ -19,6 +19,27 @@ OPS = {"add": lambda a, b: a + b, "subtract": lambda a, b: a - b, "equal": lambd
        "dot": lambda a, b: a @ b}
 
 
+SAME_DIM = ("add", "subtract", "dot", "equal", "not_equal", "isclose", "is_parallel", "is_antiparallel", "is_perpendicular")
+
+
+def must_raise(m, d1, d2):
+    """the dimension rule of the property, written down independently of the code (same rule as expect_raise in
+    coq/model/ObjChecksBin.v): True = must raise, False = must return, None = no rule stated"""
+    if m in SAME_DIM:
+        return d1 != d2
+    if m == "cross":
+        return not (d1 == 3 and d2 == 3)
+    if m == "rotate_axis":
+        return not (d1 >= 3 and d2 == 3)
+    if m == "boost_p4":
+        return not (d1 == 4 and d2 == 4)
+    if m == "boost_beta3":
+        return not (d1 == 4 and d2 == 3)
+    if m == "boost":
+        return not (d1 == 4 and d2 in (3, 4))
+    return None
+
+
 def known_pattern(m, fname, b1, b2, n1, m1, m2, wexc, gexc, want, got):
     """site strings of the listed known findings (anything else keeps its specific site and alarms)"""
     rec = "record" in (b1, b2)
@@ -154,6 +175,15 @@ def run(ctx):
                                         wexc = None
                                     except Exception as e:
                                         want, wexc = None, type(e).__name__
+                                    mr = must_raise(m, d1, d2)
+                                    n += 1
+                                    if mr is True and wexc not in ("TypeError", "AttributeError"):
+                                        ctx.fail(f"binary:{m}:objectxobject:{d1}D|{d2}D:dimension_rule",
+                                                 f"{d1}D.{m}({d2}D) on object vectors {'raises ' + wexc if wexc else 'returns ' + str(want)}; operands of these dimensions must be rejected with TypeError",
+                                                 {"a": repr(oa), "b": repr(ob), "method": m})
+                                    elif mr is False and wexc:
+                                        ctx.fail(f"binary:{m}:objectxobject:{d1}D|{d2}D:dimension_rule", f"{d1}D.{m}({d2}D) on object vectors raises {wexc}; these dimensions are documented to work",
+                                                 {"a": repr(oa), "b": repr(ob), "method": m})
                                     for b1 in BE:
                                         for b2 in BE:
                                             if b1 == "object" and b2 == "object":
